@@ -243,6 +243,32 @@ func genC13(seed uint64, tier string) *Scenario {
 			in.Rep = r.n(k + 1)
 		}
 		frags = []string{"a", "b", "c", "ab", "abab", ""}
+	case (x == 4 || x == 7) && r.chance(1, 6):
+		// large programs rather than long inputs: deep nesting, wide alternations, big {n} expansions -- the
+		// instruction count (and with it the reserve) is large next to any small L
+		k := 20 + r.n(280)
+		var p string
+		switch r.n(6) {
+		case 0:
+			p = strings.Repeat("(", k) + "a" + strings.Repeat(")?", k)
+		case 1:
+			p = strings.Repeat("(?:", k) + "a|b" + strings.Repeat(")*?", k/8+1) + strings.Repeat(")", k-k/8-1)
+		case 2:
+			var alts []string
+			for i := 0; i < k; i++ {
+				alts = append(alts, fmt.Sprintf("a{%d}b", i%7+1))
+			}
+			p = "(?:" + strings.Join(alts, "|") + ")+c"
+		case 3:
+			p = fmt.Sprintf("(?:a(b)?){%d}", k)
+		case 4:
+			p = strings.Repeat("(?=", k/4+1) + "a" + strings.Repeat(")", k/4+1) + "a+"
+		default:
+			p = fmt.Sprintf("(?:(?:ab){%d}|a)*$", k/10+2)
+		}
+		spec = ReSpec{Pat: p, Opts: []int{0, 0, oRTL, oI, oN}[r.n(5)]}
+		in = InputSpec{Pre: randABC(r, r.n(3)), Unit: []string{"a", "ab", "aab", "b"}[r.n(4)], Rep: 1 + r.n(k+20), Suf: []string{"", "c", "b"}[r.n(3)]}
+		frags = []string{"a", "b", "ab", "c", "aab", ""}
 	case (x == 4 || x == 7) && r.chance(1, 4):
 		// a chain of single-character loops over different letters, every one of which matches something in
 		// one pass: left to right, right to left, and right to left inside a lookbehind
